@@ -82,6 +82,7 @@ const (
 	behErr  = 1 // answers with an error after DelayMs
 	behHang = 2 // never answers; returns when its context ends
 	behStuck = 3 // never answers and ignores its context; returns only when the case is over
+	behGarbled = 4 // answers after DelayMs with HTTP 200 and a body that yields no SCT: client.RspError{StatusCode: 200, Err != nil}
 )
 
 type Beh struct {
